@@ -50,6 +50,35 @@ fn process_leave_request(leave_message: &String, dbs: &Arc<Databases>) {
     }
 }
 
+/// What the end of a connection means for the node: subscriptions released, a cluster member reported as gone, the
+/// session counted out of its database.
+fn client_disconnected(client: &mut Client, dbs: &Arc<Databases>) {
+    process_request("unwatch-all", dbs, client);
+    let member = &*client.cluster_member.lock().unwrap();
+    if let Some(m) = member {
+        match m.role {
+            ClusterRole::Primary => {
+                log::debug!("Primary Cluster member disconnected: {}", m.name);
+                process_leave_request(&format!("leave {}", m.name), dbs);
+            }
+            ClusterRole::Secoundary => {
+                log::debug!("Secoundary Cluster member disconnected: {}", m.name);
+                // replicate-leave does not efornce election
+                process_leave_request(&format!("replicate-leave {}", m.name), dbs);
+            }
+            ClusterRole::StartingUp => {
+                log::debug!(
+                    "ClusterMember {} died while still in StartingUp mode",
+                    m.name
+                );
+                // replicate-leave does not efornce election
+                process_leave_request(&format!("replicate-leave {}", m.name), dbs);
+            }
+        }
+    }
+    client.left(dbs);
+}
+
 fn handle_client(stream: TcpStream, dbs: Arc<Databases>) {
     let mut reader = BufReader::new(&stream);
     let writer = &mut BufWriter::new(&stream);
@@ -69,37 +98,7 @@ fn handle_client(stream: TcpStream, dbs: Arc<Databases>) {
                 match buf.as_ref() {
                     "" => {
                         log::debug!("killing socket client, because of disconnected!!");
-                        process_request("unwatch-all", &dbs, &mut client);
-                        let member = &*client.cluster_member.lock().unwrap();
-                        if let Some(m) = member {
-                            match m.role {
-                                ClusterRole::Primary => {
-                                    log::debug!("Primary Cluster member disconnected: {}", m.name);
-                                    process_leave_request(&format!("leave {}", m.name), &dbs);
-                                }
-                                ClusterRole::Secoundary => {
-                                    log::debug!(
-                                        "Secoundary Cluster member disconnected: {}",
-                                        m.name
-                                    );
-                                    process_leave_request(
-                                        &format!("replicate-leave {}", m.name),
-                                        &dbs,
-                                    ); // replicate-leave does not efornce election
-                                }
-                                ClusterRole::StartingUp => {
-                                    log::debug!(
-                                        "ClusterMember {} died while still in StartingUp mode",
-                                        m.name
-                                    );
-                                    process_leave_request(
-                                        &format!("replicate-leave {}", m.name),
-                                        &dbs,
-                                    ); // replicate-leave does not efornce election
-                                }
-                            }
-                        }
-                        client.left(&dbs);
+                        client_disconnected(&mut client, &dbs);
                         break;
                     }
                     _ => match process_request(&buf, &dbs, &mut client) {
@@ -117,15 +116,28 @@ fn handle_client(stream: TcpStream, dbs: Arc<Databases>) {
                     },
                 }
             }
-            _ => process_message(&mut receiver, writer),
+            _ => {
+                if !process_message(&mut receiver, writer) {
+                    // A client that does not read what it is sent (socket buffers and the writer's buffer
+                    // are full) cannot be told anything more: its connection ends here like any other
+                    // disconnect, instead of panicking the thread and leaving the session behind
+                    log::warn!("killing socket client, it does not read its messages");
+                    client_disconnected(&mut client, &dbs);
+                    break;
+                }
+            }
         }
     }
 }
-fn process_message(receiver: &mut Receiver<String>, writer: &mut BufWriter<&TcpStream>) {
+/// false if the message could not be handed to the writer (the connection is of no use any more)
+fn process_message(receiver: &mut Receiver<String>, writer: &mut BufWriter<&TcpStream>) -> bool {
     match receiver.try_next() {
         Ok(message_opt) => match message_opt {
             Some(message) => {
-                writer.write_fmt(format_args!("{}", message)).unwrap();
+                if let Err(e) = writer.write_fmt(format_args!("{}", message)) {
+                    log::warn!("process_message write Error: {}", e);
+                    return false;
+                }
                 match writer.flush() {
                     Ok(_n) => (),
                     Err(e) => log::warn!("process_message Error: {}", e),
@@ -135,4 +147,5 @@ fn process_message(receiver: &mut Receiver<String>, writer: &mut BufWriter<&TcpS
         },
         _ => thread::sleep(time::Duration::from_millis(2)),
     }
+    true
 }
